@@ -31,6 +31,7 @@ import Sds.Proofs.GenEqConstr4
 import Sds.Proofs.GenEqConstr5
 import Sds.Proofs.GenEqConstr3
 import Sds.Proofs.GenEqVec3
+import Sds.Proofs.GenEqFromExt
 
 namespace Sds.C05
 open Sds Outcome
@@ -340,5 +341,20 @@ theorem reserve_as_translated_from_source (m : Mode) (cap additional : Nat) :
     (∀ v : RawVec, v.len + additional + 63 < U64 → Generated.gen_RawVector_reserve m cap v additional = ok v) ∧
     (∀ v : IntVec, v.data.len + additional * v.width + 63 < U64 → Generated.gen_IntVector_reserve m cap v additional = ok v) :=
   ⟨fun v h => GenEq.raw_reserve_eq m cap v additional h, fun v h => GenEq.int_reserve_eq m cap v additional h⟩
+
+/-! **`Extend<u64>`, `From<Vec<u64>>`, `FromIterator<u64>` for `IntVector` as translated from the source on this run**
+(`Generated/FnsFromExt.lean`: the body of `macro_rules! from_extend_int_vector` at `(u64, 64)`; the other four instances
+differ in the item type and the width constant): `size_hint`, `reserve(lower_bound)` (for every `Vec` capacity `cap`), the
+`while let Some(value) = iter.next()` loop of pushes; `with_capacity(v.len(), 64).unwrap()` / `new(64).unwrap()` then
+`extend`.  Equal to the model's `extend` and to the vector `IntVec.ofList 64 …` the correspondence check compares with. -/
+theorem int_vector_from_extend_as_translated_from_source (m : Mode) (cap : Nat) :
+    (∀ (v : IntVec) (iter : List Word), v.WF → (v.len + iter.length) * v.width + 63 < U64 →
+        Generated.gen_IntVector_extend_u64 m cap v iter = ok (v.extend iter)) ∧
+    (∀ a : Array Word, a.size * 64 + 63 < U64 →
+        Generated.gen_IntVector_from_vec_u64 m cap a = ok (IntVec.ofList 64 (a.toList.map (·.toNat)))) ∧
+    (∀ iter : List Word, iter.length * 64 + 63 < U64 →
+        Generated.gen_IntVector_from_iter_u64 m cap iter = ok (IntVec.ofList 64 (iter.map (·.toNat)))) :=
+  ⟨fun v iter hwf hb => GenEq.int_extend_eq m cap v iter hwf hb, fun a hb => GenEq.int_from_vec_eq m cap a hb,
+   fun iter hb => GenEq.int_from_iter_eq m cap iter hb⟩
 
 end Sds.C05
